@@ -342,6 +342,20 @@ def correspond(ctx, scale):
                         failures.append({'key': f'fsq:depends-on-memory-layout:{vname}', 'what': f'FSQ({levels}, num_codebooks={ncb}, sym={sym}) train={tr_}: the same values stored as {vname} quantize differently '
                                          f'({int((i_v != i_eval).sum())} of {i_eval.numel()} indices)', 'case': dict(levels=levels, variant=vname)})
             q.eval()
+            # channel-first sequences '(b, d, n)', with a sequence length EQUAL to the feature dimension (a transposition slip is invisible in the shapes),
+            # one less and one more: channel i is quantized with levels[i], whatever n is
+            dd_ = len(levels) * ncb
+            q_cf = FSQ(levels, num_codebooks=ncb, preserve_symmetry=sym, channel_first=True)
+            q_cf.eval()
+            for n_cf in (dd_, max(1, dd_ - 1), dd_ + 1):
+                x_cl = torch.randn(2, n_cf, dd_) * 1.5
+                o_ref, i_ref = q(x_cl)
+                o_cf, i_cf = q_cf(x_cl.transpose(1, 2).contiguous())
+                dist['channel_first_square_cases'] = dist.get('channel_first_square_cases', 0) + 1
+                if o_cf.shape != (2, dd_, n_cf) or not torch.equal(o_cf.transpose(1, 2), o_ref) or not torch.equal(i_cf.reshape(i_ref.shape) if i_cf.shape != i_ref.shape and i_cf.numel() == i_ref.numel() else i_cf, i_ref):
+                    failures.append({'key': 'fsq:channel-first-sequence', 'what': f'FSQ({levels}, num_codebooks={ncb}, channel_first=True) on a (2, {dd_}, {n_cf}) input differs from the channel-last module on the transposed input '
+                                     '(a channel is quantized with another channel\'s level count)', 'case': dict(levels=levels, n=n_cf)})
+                    break
             # layouts: image layout = flattened sequence
             xi = x.reshape(2, 5, 1, -1).permute(0, 3, 1, 2)       # b d h w with h=5, w=1
             oi, ii = q.eval()(xi)
